@@ -454,10 +454,10 @@ func coqCfg(s *ctlSpec) string {
 	for _, r := range simResources {
 		known = append(known, coqKid(kidSpec{APIVersion: r.APIVersion(), Resource: r.Resource, Kind: r.Kind, Namespaced: r.Namespaced}))
 	}
-	return fmt.Sprintf("(mkCfg %s %s %s %s %s true %s %s [%s] %s %s [%s])", vh.MustCoqString(s.Name),
+	return fmt.Sprintf("(mkCfg %s %s %s %s %s true %s %s [%s] %s %s [%s] %s false)", vh.MustCoqString(s.Name),
 		vh.MustCoqString(s.ParentAPIVersion), vh.MustCoqString(s.ParentKind), vh.MustCoqString(s.ParentResource),
 		vh.CoqBool(s.ParentNamespaced), vh.CoqBool(s.GenSelector), coqSelector(s.CtlSelector),
-		strings.Join(kids, "; "), vh.CoqBool(!s.NoSync), vh.CoqBool(s.Finalize), strings.Join(known, "; "))
+		strings.Join(kids, "; "), vh.CoqBool(!s.NoSync), vh.CoqBool(s.Finalize), strings.Join(known, "; "), vh.CoqBool(s.SSA))
 }
 
 func coqRound(s *ctlSpec, r *roundRec) string {
